@@ -156,6 +156,44 @@ impl Ctx {
             &[op.into(), k.to_string(), hx(data), nums(&src)], &imp, Some(pred), cls);
     }
 
+    /// the library's length / header writers against the model encoders, and read back
+    fn hdr_write(&mut self, tag: u8, n: u32, cls: &str) {
+        use pgp::ser::Serialize;
+        use pgp::types::Tag;
+        let r = guarded(|| -> Result<(Vec<u8>, Vec<u8>, Vec<u8>, Option<Vec<u8>>, bool), String> {
+            let mut a = Vec::new();
+            PacketLength::Fixed(n).to_writer_new(&mut a).map_err(|e| e.to_string())?;
+            let h = PacketHeader::new_fixed(Tag::from(tag), n);
+            let mut b = Vec::new();
+            h.to_writer(&mut b).map_err(|e| e.to_string())?;
+            let mut c = Vec::new();
+            PacketHeaderVersion::New.write_header(&mut c, Tag::from(tag), n as usize).map_err(|e| e.to_string())?;
+            let d = if tag < 16 {
+                let mut d = Vec::new();
+                PacketHeaderVersion::Old.write_header(&mut d, Tag::from(tag), n as usize).map_err(|e| e.to_string())?;
+                Some(d)
+            } else { None };
+            // truthful lengths and read-back
+            let mut ok = a.len() == PacketLength::fixed_encoding_len(n) && b.len() == h.write_len()
+                && c.len() == PacketHeaderVersion::New.header_len(n as usize)
+                && d.as_ref().map(|d| d.len() == PacketHeaderVersion::Old.header_len(n as usize)).unwrap_or(true);
+            ok &= matches!(PacketLength::try_from_reader(&a[..]), Ok(PacketLength::Fixed(m)) if m == n);
+            for hb in [Some(&b), Some(&c), d.as_ref()].into_iter().flatten() {
+                ok &= matches!(PacketHeader::try_from_reader(&hb[..]), Ok(ph) if ph.packet_length() == PacketLength::Fixed(n) && u8::from(ph.tag()) == tag);
+            }
+            Ok((a, b, c, d, ok))
+        });
+        match r {
+            Ok(Ok((a, b, c, d, ok))) => {
+                self.out.case("enc_len", &[n.to_string()], &["hdr_write".into(), tag.to_string(), n.to_string()], &hx(&a), Some(ok), cls);
+                self.out.case("enc_hdr_new", &[tag.to_string(), n.to_string()], &["hdr_write".into(), tag.to_string(), n.to_string()], &hx(&b), Some(b == c), cls);
+                if let Some(d) = d { self.out.case("enc_hdr_old", &[tag.to_string(), n.to_string()], &["hdr_write".into(), tag.to_string(), n.to_string()], &hx(&d), None, cls); }
+            }
+            Ok(Err(e)) => self.out.case("enc_len", &[n.to_string()], &["hdr_write".into(), tag.to_string(), n.to_string()], &format!("ERR {e}"), Some(false), cls),
+            Err(pn) => self.out.case("enc_len", &[n.to_string()], &["hdr_write".into(), tag.to_string(), n.to_string()], &pn, Some(false), cls),
+        }
+    }
+
     /// PacketParser: the same packet value whichever framing carries the body
     fn parse_same(&mut self, tag: u8, body: &[u8], ks: &[u32], clsn: u8, old_lt: Option<u8>, cls: &str) {
         let canon = frame_new(tag, &[], if body.len() < 192 { 1 } else if body.len() < 8384 { 2 } else { 5 }, body);
@@ -307,7 +345,26 @@ fn main() {
         cx.deframe(&b, None, "random");
     }
 
+    // 3b. the library's own length and header writers: every length around the class edges
+    for n in (0u32..=300).chain(8100..=8700).chain(65400..=65700) { let tag = (n % 64) as u8; cx.hdr_write(tag, n, "hdr-write-sweep"); }
+    if thorough { for n in 300u32..=70000 { cx.hdr_write((n % 64) as u8, n, "hdr-write-sweep"); } }
+    for _ in 0..300 {
+        let n = match cx.rng.below(4) { 0 => cx.rng.below(1 << 16) as u32, 1 => cx.rng.below(1 << 24) as u32, 2 => cx.rng.next() as u32, _ => u32::MAX - cx.rng.below(3) as u32 };
+        let tag = cx.rng.below(64) as u8;
+        cx.hdr_write(tag, n, "hdr-write-random");
+    }
     // 4. what the library writes
+    // chunk size 2^14: closing pieces at the length-class edges (191/192, 8383/8384)
+    for last in [0usize, 1, 191, 192, 193, 8383, 8384, 8385, 16383] {
+        let c = 1usize << 14;
+        for full in [1usize, 2] {
+            let n = full * c - 6 + last;
+            let data = body_for(&mut cx.rng, n);
+            cx.emit(14, &data, false, false, "emit-literal-edge");
+            if full == 1 { cx.emit(14, &data, true, false, "emit-literal-in-uncompressed-edge"); }
+        }
+        if last + 6 < c { let data = body_for(&mut cx.rng, last); cx.emit(14, &data, false, false, "emit-literal-edge-single"); }
+    }
     let ks: &[u32] = if thorough { &[9, 10, 11, 12, 13, 16] } else { &[9, 10, 12] };
     for &k in ks {
         let c = 1usize << k;
@@ -369,6 +426,7 @@ fn replay(cx: &mut Ctx, a: &[String]) {
             let k: u32 = a[1].parse().unwrap();
             cx.emit(k, &unhx(&a[2]), a[0].contains("comp"), a[0].contains("fixed"), "replay");
         }
+        "hdr_write" => cx.hdr_write(a[1].parse().unwrap(), a[2].parse().unwrap(), "replay"),
         "parse_same" => {
             let ks: Vec<u32> = parse_nums(&a[3]).iter().map(|&k| k as u32).collect();
             cx.parse_same(a[1].parse().unwrap(), &unhx(&a[2]), &ks, a[4].parse().unwrap(), if a[5] == "-" { None } else { Some(a[5].parse().unwrap()) }, "replay");
